@@ -5,11 +5,14 @@ worktree with tools/seedeval.sh and keeps the confirmed ones as
 import json, os, re, shutil, subprocess, sys
 pid, wt = sys.argv[1], sys.argv[2]
 tier = sys.argv[3] if len(sys.argv) > 3 else "quick"
+only = sys.argv[4] if len(sys.argv) > 4 else None  # e.g. seed2
 root = "/verif/seeded"
 os.makedirs(root, exist_ok=True)
 for n in sorted(os.listdir(wt)):
     d = os.path.join(wt, n)
     if not (n.startswith("seed") and os.path.isfile(os.path.join(d, "patch.diff"))):
+        continue
+    if only and n != only:
         continue
     r = subprocess.run(["/verif/tools/seedeval.sh", pid, d, tier], stdout=subprocess.PIPE, stderr=subprocess.STDOUT, text=True)
     out = r.stdout
